@@ -10,6 +10,8 @@ FORBIDDEN = re.compile(r'\b(Admitted|admit|Axiom|Axioms|Parameter|Parameters|Con
 ALLOWED_AXIOMS = {
     'ClassicalDedekindReals.sig_not_dec', 'ClassicalDedekindReals.sig_forall_dec',
     'FunctionalExtensionality.functional_extensionality_dep',
+    # the same three standard-library axioms, as printed when the declaring module is imported
+    'functional_extensionality_dep', 'sig_not_dec', 'sig_forall_dec',
 }
 
 
@@ -112,11 +114,29 @@ def build_many(vfiles, jobs=16, timeout=900):
 
 
 def axioms_of(out):
-    """names listed under 'Axioms:' in Print Assumptions output"""
+    """names listed under 'Axioms:' in Print Assumptions output.  An entry is `name : type` on one line, or `name` followed by a
+    continuation line indented by exactly two spaces (`  : type`); anything else (e.g. the output of a later Check, which indents
+    by five spaces) ends the block."""
     names = set()
-    for blk in re.split(r'(?m)^Axioms:\s*$', out)[1:]:
-        for m in re.finditer(r'(?m)^([A-Za-z_][\w.]*)\s*(?::|$)', blk):
-            names.add(m.group(1))
+    lines = out.splitlines()
+    i = 0
+    while i < len(lines):
+        if lines[i].strip() == 'Axioms:':
+            i += 1
+            while i < len(lines):
+                ln = lines[i]
+                m1 = re.match(r'^([A-Za-z_][\w.\']*) : ', ln)
+                m2 = re.match(r'^([A-Za-z_][\w.\']*)$', ln)
+                if m1:
+                    names.add(m1.group(1)); i += 1
+                elif m2 and i + 1 < len(lines) and re.match(r'^  : ', lines[i + 1]):
+                    names.add(m2.group(1)); i += 2
+                elif ln.startswith('  ') and not ln.startswith('     :'):
+                    i += 1   # continuation of a type
+                else:
+                    break
+        else:
+            i += 1
     return names
 
 
